@@ -821,8 +821,9 @@ func init() {
 		n := 3
 		blocks := v2Blocks(keys, 2)
 		var jobs []v2Job
-		for _, cfg := range v2Configs(c.Tier, false) {
-			for _, h := range enumHists(blocks, n) {
+		// history-major order: if the budget ends early, every configuration has covered the same histories
+		for _, h := range enumHists(blocks, n) {
+			for _, cfg := range v2Configs(c.Tier, false) {
 				jobs = append(jobs, v2Job{cfg, h})
 			}
 		}
@@ -852,16 +853,16 @@ func init() {
 			n = 4
 		}
 		small := v2Blocks(keys, 1)
-		for _, cfg := range v2Configs(c.Tier, true) {
-			if c.Tier == "quick" && (cfg.EvictionDepth == 0 || cfg.EvictionDepth == 8 || cfg.Checkpoint == 3) {
-				continue
+		for _, h := range enumHists(blocks, n-1) {
+			last := blocks
+			if c.Tier == "quick" {
+				last = small
 			}
-			for _, h := range enumHists(blocks, n-1) {
-				last := blocks
-				if c.Tier == "quick" {
-					last = small
-				}
-				for _, b := range last {
+			for _, b := range last {
+				for _, cfg := range v2Configs(c.Tier, true) {
+					if c.Tier == "quick" && (cfg.EvictionDepth == 0 || cfg.EvictionDepth == 8 || cfg.Checkpoint == 3) {
+						continue
+					}
 					jobs = append(jobs, v2Job{cfg, append(append([]v2Block{}, h...), b)})
 				}
 			}
